@@ -61,8 +61,18 @@ def search(case, spec):
         run_find(case, atol, spec.get('hints'), spec.get('rng', 0))
         S = case['structure']
         cell = np.asarray(case['cell'], dtype=float)
-        S.translate(np.array(spec['history'], dtype=float).dot(cell))
-        S.positions[:] = np.array([geo.wrap(cell, p) for p in S.positions])
+        if spec['history'] == 'destroy':
+            # (a copy of) the searched object is edited in place: the last atom of the first planted occurrence is moved away, so that
+            # occurrence no longer exists and must not be reported; everything else is as it was
+            if spec.get('on_copy'):
+                S = case['structure'] = S.copy()
+            gone = case['planted'][0]
+            S.positions[gone[-1]] += np.array([3.1, 2.7, 1.9])
+            S.positions[gone[-1]] = geo.wrap(cell, S.positions[gone[-1]])
+            case['planted'] = list(case['planted'][1:])
+        else:
+            S.translate(np.array(spec['history'], dtype=float).dot(cell))
+            S.positions[:] = np.array([geo.wrap(cell, p) for p in S.positions])
     return run_find(case, atol, spec.get('hints'), spec.get('rng', 0))
 
 
@@ -298,6 +308,11 @@ def specs(tier, seed):
                 continue
             out.append(dict(cell=cell, pattern=pat, copies=2, seed=seed * 1000 + 900 + ci, decoys=2, mirror=1 if pat == 'chiral4' else 0, near_miss=1,
                             rng=pi, history=[[0.46, 0.08, -0.06], [0.31, 0.52, 0.77]][pi % 2]))
+    for ci, cell in enumerate(cells):
+        for pi, pat in enumerate(('pair', 'planar3', 'chiral4')):
+            if tier == 'quick' and (ci + pi) % 2 == 0:
+                continue
+            out.append(dict(cell=cell, pattern=pat, copies=3, seed=seed * 1000 + 920 + ci, decoys=1, mirror=0, near_miss=0, rng=pi, history='destroy', on_copy=bool((ci + pi) % 3)))
     # hint triples for small patterns
     for pat in ['pair', 'planar3', 'chiral4']:
         n = len(geo.PATTERNS[pat][0])
